@@ -100,6 +100,7 @@ package rtsp
 //@ func ReadResponse(r *bufio.Reader) (resp *Response, err error)
 //@   requires r != nil
 //@   modifies ghostInt(r, "rpos"), anyElems(resp.Header[""])
+//@   freshornil resp
 //@   ensures err == nil ==> resp != nil && resp.Header != nil
 //@   ensures err == nil ==> len(resp.Body) <= bodyLimit()
 //@   ensures err == nil ==> forall(k, 0, len(resp.Body), resp.Body[k] == ghostBytes(r, "src")[ghostInt(r, "rpos") - len(resp.Body) + k])
